@@ -215,7 +215,13 @@ func (env linEnv) lin(v ssa.Value) Lin {
 			if c, ok := b.isConst(); ok {
 				return a.scale(c)
 			}
-			return linAtom("(" + a.String() + ")*(" + b.String() + ")")
+			as, bs := a.String(), b.String()
+			if as > bs {
+				as, bs = bs, as
+			}
+			return linAtom("(" + as + ")*(" + bs + ")")
+		case token.QUO:
+			return linAtom("(" + env.lin(x.X).String() + ")/(" + env.lin(x.Y).String() + ")")
 		case token.XOR, token.AND_NOT:
 			// size ^ deletedBit / size &^ deletedBit under a "bit is set" guard: opaque but structural
 			return linAtom("(" + env.lin(x.X).String() + ")" + x.Op.String() + "(" + env.lin(x.Y).String() + ")")
